@@ -18,7 +18,8 @@ Everything of `soxr.c` the wrapper's observable behaviour depends on is modelled
 * `soxr_set_io_ratio` — lazy initialisation on the first valid ratio; constant-rate engines refuse a different ratio
   (`fabs(p->io_ratio - io_ratio) < 1e-15`), and the refusal is lost in `soxr_set_error`;
 * `fatal_error` — `memset`s the whole object (control block, channel count, quality spec included) and then records;
-* `soxr_clear` — keeps the configuration, drops the error, under `RESET_ON_CLEAR` keeps the **old** ratio and
+* `soxr_clear` — refuses an object torn down by `fatal_error`; otherwise keeps the configuration, drops the error,
+  under `RESET_ON_CLEAR` keeps the **old** ratio and
   re-initialises at it (when channels and ratio are set);
 * `soxr_process` — `~input_frames` decoded on `size_t`, `soxr_i_for_o = min(ceil(olen · io_ratio), ilen)` in `double`;
 * `soxr_output` — the pull loop; `soxr_input`; the NULL-pointer errors;
@@ -331,15 +332,31 @@ def soxrProcess (fuel : Nat) (o : Obj) (inNull : Bool) (ilen0 : BitVec 64) (outN
     M (Obj × Nat × Nat) :=
   processCore fuel { o with flushing := flushAfter o inNull ilen0 olen } inNull outNull (ilenOf o inNull ilen0 olen) olen
 
-/-- `soxr_clear(p)`, `p` not NULL: `(object, returned error)`.  Under `RESET_ON_CLEAR` the old ratio is stored again
-    (`p->io_ratio = tmp.io_ratio`) and, when the channel count is set and the ratio is not 0, applied through
-    `soxr_set_io_ratio` — which re-creates the engines at the OLD ratio. -/
+/-- `soxr_clear(p)`, `p` not NULL: `(object, returned error)`.
+    An object torn down by `fatal_error` (`tmp.error && !tmp.control_block[9]`) is refused and keeps its error
+    (/repo b5a678f).  Otherwise: engines closed, error / flushing / ratio forgotten; under `RESET_ON_CLEAR` the old ratio
+    is stored again (`p->io_ratio = tmp.io_ratio`) and, when the channel count is set and the ratio is not 0, applied
+    through `soxr_set_io_ratio` — which re-creates the engines at the OLD ratio. -/
 def soxrClear (o : Obj) : M (Obj × Option Err) :=
+  if o.error.isSome && o.dead then M.pure (o, o.error)
+  else
+    M.bind (closeAll o) fun _ =>
+    if !o.cfg.reset then M.pure ({ o with ioRatio := 0, error := none, inited := false, flushing := false }, none)
+    else if o.chans != 0 && !isZero o.ioRatio then
+      setIoRatio { o with error := none, inited := false, flushing := false } o.ioRatio 0
+    else M.pure ({ o with error := none, inited := false, flushing := false }, none)
+
+namespace Historical
+
+/-- `soxr_clear` before /repo b5a678f (finding F40): no test for a torn-down object. -/
+def soxrClearPre (o : Obj) : M (Obj × Option Err) :=
   M.bind (closeAll o) fun _ =>
   if !o.cfg.reset then M.pure ({ o with ioRatio := 0, error := none, inited := false, flushing := false }, none)
   else if o.chans != 0 && !isZero o.ioRatio then
     setIoRatio { o with error := none, inited := false, flushing := false } o.ioRatio 0
   else M.pure ({ o with error := none, inited := false, flushing := false }, none)
+
+end Historical
 
 /-! ## `soxr-lsr.c` -/
 
@@ -401,6 +418,16 @@ def srcReset (p : Option Obj) : M (Option Obj × Int) :=
   match p with
   | some o => M.bind (soxrClear o) fun oe => M.pure (some oe.1, rcOf oe.2)
   | none => M.pure (none, -1)
+
+namespace Historical
+
+/-- `src_reset` over the pre-repair `soxr_clear`. -/
+def srcResetPre (p : Option Obj) : M (Option Obj × Int) :=
+  match p with
+  | some o => M.bind (soxrClearPre o) fun oe => M.pure (some oe.1, rcOf oe.2)
+  | none => M.pure (none, -1)
+
+end Historical
 
 /-- `src_error(p)`: `p ? -!!soxr_error(p) : -1`. -/
 def srcError (p : Option Obj) : M Int :=
